@@ -20,7 +20,7 @@ def c02(tier, seed):
         {"type": "s2i", "kind": "select", "mc": {"module": "MC_Piecewise", "constants": {"N": n, "M": m}}},
         {"type": "i2s", "name": "drive select", "spec": "Trace_Select",
          "cmd": ["drive", "select", "{seed}", q(tier, 150, 1500), "{trace}"]},
-        session_step(tier, "eval"),
+        library_s2i(tier, "eval"), repo_tests("eval"), session_step(tier, "eval"),
         # direct evaluation is also logged next to every evaluator query
         {"type": "i2s", "name": "drive evaluator (direct leg)", "spec": "Trace_Evaluator", "cfg": "Trace_Evaluator_direct",
          "cmd": ["drive", "evaluator", "{seed}", q(tier, 100, 800), "{trace}"]},
@@ -40,7 +40,7 @@ def c03(tier, seed):
          "cmd": ["histories", q(tier, 3, 4), q(tier, 3, 3), "{trace}"], "heap": "6g"},
         {"type": "i2s", "name": "random sessions", "spec": "Trace_Evaluator",
          "cmd": ["drive", "evaluator", "{seed}", q(tier, 300, 3000), "{trace}", "nonan"]},
-        session_step(tier, "query"),
+        library_s2i(tier, "query"), repo_tests("query"), session_step(tier, "query"),
     ] + ([{"type": "apalache", "module": "AP_Evaluator", "inv": "Inv", "length": 6,
            "what": "<= 4 breakpoints and every query arbitrary integers, histories of <= 6 queries"}] if tier == "thorough" else [])
 
@@ -52,7 +52,7 @@ def c12(tier, seed):
         {"type": "s2i", "kind": "evalv", "mc": {"module": "MC_EvalV", "constants": {"N": n, "M": m}}},
         {"type": "i2s", "name": "drive evalv", "spec": "Trace_EvalV",
          "cmd": ["drive", "evalv", "{seed}", q(tier, 400, 4000), "{trace}", "nonan"]},
-        session_step(tier, "vnext"),
+        library_s2i(tier, "vnext"), session_step(tier, "vnext"),
     ]
 
 
@@ -65,7 +65,7 @@ def c13(tier, seed):
         {"type": "mc", "module": "MC_Merge", "constants": {"N": 2, "M": 3, "WithNaN": True}, "tag": "nan"},
         {"type": "i2s", "name": "drive merge", "spec": "Trace_Merge",
          "cmd": ["drive", "merge", "{seed}", q(tier, 300, 3000), "{trace}"]},
-        session_step(tier, "combine"),
+        library_s2i(tier, "combine", "q"), repo_tests("combine"), session_step(tier, "combine"),
     ] + ([{"type": "apalache", "module": "AP_Merge", "inv": "Inv", "length": 6,
            "what": "operands of <= 3 pieces with arbitrary integer breakpoints, arbitrary integer argument"}] if tier == "thorough" else [])
 
@@ -139,7 +139,7 @@ def c08(tier, seed):
              "min_tally": [0, 1000, 0, 0]},
             {"type": "i2s", "name": "drive pwops (piecewise derivative)", "spec": "Trace_Ops", "cmd": ["drive", "pwops", "{seed}", q(tier, 60, 600), "{trace}", "deriv"],
              "min_tally": [0, 0, 0, 500]},
-            session_step(tier, "derive")]
+            library_s2i(tier, "derive"), repo_tests("derive"), session_step(tier, "derive")]
 
 
 def c14(tier, seed):
@@ -150,7 +150,8 @@ def c14(tier, seed):
 
 def c15(tier, seed):
     return [dict(MC_ALG), CALIB,
-            {"type": "mc", "module": "MC_Library", "constants": {"N": 2, "Depth": q(tier, 3, 5)}, "workers": q(tier, 6, 12), "heap": "12g", "timeout": 3400},
+            library_s2i(tier, "scalar"), repo_tests("scalar"), library_s2i(tier, "scalar", "q")] + \
+           ([{"type": "mc", "module": "MC_Library", "constants": {"N": 2, "Depth": 5, "Kind": '"poly"'}, "workers": 12, "heap": "12g", "timeout": 3400}] if tier == "thorough" else []) + [
             session_step(tier, "scalar"),
             {"type": "i2s", "name": "drive pwops", "spec": "Trace_Ops", "cmd": ["drive", "pwops", "{seed}", q(tier, 60, 1000), "{trace}"],
              "min_tally": [0, 0, 0, 1000], "min_nontrivial": 19}]
@@ -182,7 +183,7 @@ def c11(tier, seed):
          "min_tally": [150, 60, 100, 0]},
         {"type": "i2s", "name": "drive pwint log", "spec": "Trace_PwInt", "cmd": ["drive", "pwint", "{seed}", q(tier, 6, 40), "{trace}", "log"],
          "min_tally": [40, 15, 25, 40]},
-        session_step(tier, "integrate"),
+        library_s2i(tier, "integrate"), repo_tests("integrate"), session_step(tier, "integrate"),
     ]
     if tier == "thorough":
         steps += [{"type": "i2s", "name": "drive pwint log shard %d" % k, "spec": "Trace_PwInt",
@@ -197,6 +198,7 @@ def spline_steps(tier, seed, which):
          "mc": {"module": "MC_Spline", "constants": {"K": k, "X": x, "Y": y, "Off": 0}, "workers": 1, "tag": "origin"}},
         {"type": "mc", "module": "MC_Spline", "constants": {"K": 4, "X": 3, "Y": 2, "Off": 100}, "workers": 2, "tag": "offset"},
         CALIB,
+        repo_tests("build"),
         {"type": "i2s", "name": "drive spline", "spec": "Trace_Build", "cmd": ["drive", "spline", "{seed}", q(tier, 1500, 6000), "{trace}"],
          "min_tally": [1000, 300, 0, 0]},
     ]
@@ -219,6 +221,7 @@ def c06(tier, seed):
         {"type": "s2i", "kind": "linear", "via": "events", "trace": {"spec": "Trace_Build"},
          "mc": {"module": "MC_Linear", "constants": {"L": q(tier, 3, 4), "X": 4, "Y": 2}, "workers": 1}},
         CALIB,
+        repo_tests("build"),
         {"type": "i2s", "name": "drive linear", "spec": "Trace_Build", "cmd": ["drive", "linear", "{seed}", q(tier, 2000, 20000), "{trace}"],
          "min_tally": [0, 0, 1500, 600]},
     ]
@@ -228,7 +231,7 @@ def c17(tier, seed):
     return [
         {"type": "mc", "module": "MC_Approx", "constants": {"MaxLen": 3, "V": 2}, "workers": 4},
         CALIB,
-        {"type": "i2s", "name": "drive approx", "spec": "Trace_Approx", "cmd": ["drive", "approx", "{seed}", q(tier, 6, 60), "{trace}"],
+        {"type": "i2s", "name": "drive approx", "spec": "Trace_Approx", "cmd": ["drive", "approx", "{seed}", q(tier, 3, 40), "{trace}"],
          "min_tally": [5000, 2000, 100, 500]},
     ]
 
@@ -254,6 +257,26 @@ def session_step(tier, scope):
     return {"type": "i2s", "name": "sessions, scope " + scope, "spec": "Trace_Library", "cfg": "Trace_Library_" + scope,
             "cmd": ["drive", "session", "{seed}", q(tier, 240, 3000), "{trace}"],
             "min_tally": {"scalar": [500, 0, 0, 0], "derive": [500, 0, 0, 0], "integrate": [500, 0, 5, 0], "combine": [500, 0, 0, 10]}.get(scope, [0, 60, 0, 0])}
+
+
+def library_s2i(tier, scope, kind="poly"):
+    """Spec -> impl for the session machine: every script TLC enumerates from MC_Library (one per state of the last
+    level) is run through the real code under two embeddings and logged as ordinary `lib` events; Trace_Library
+    judges them with the clauses of one property (Scope)."""
+    return {"type": "s2i", "kind": "lib", "tag": kind + "_" + scope, "via": "events",
+            "trace": {"spec": "Trace_Library", "cfg": "Trace_Library_" + scope,
+                      "min_tally": {"scalar": [5000, 0, 0, 0], "derive": [500, 0, 0, 0], "integrate": [500, 0, 100, 0], "combine": [500, 0, 0, 500]}.get(scope, [0, 3000 if scope == "eval" else 500, 0, 0])},
+            "mc": {"module": "MC_Library", "constants": {"N": 2, "Depth": q(tier, 3, 4), "Kind": '"%s"' % kind}, "workers": q(tier, 4, 8), "heap": "12g",
+                   "tag": kind + "_" + scope, "timeout": 3400}}
+
+
+def repo_tests(scope):
+    """The repository's own 94 unit tests re-expressed as scripts (inputs only; scenarios/repo_tests.ndjson, written by
+    bin/gen_scenarios), run through the real code and judged by the specification under one property's scope."""
+    if scope == "build":
+        return {"type": "scenario", "file": "repo_tests.ndjson", "kind": "repo-build", "tag": "build", "trace": {"spec": "Trace_Build"}}
+    return {"type": "scenario", "file": "repo_tests.ndjson", "kind": "repo-lib", "tag": scope,
+            "trace": {"spec": "Trace_Library", "cfg": "Trace_Library_" + scope}}
 
 
 ORDER_ASSUME = [
